@@ -436,6 +436,15 @@ func runC20(c *mon.Ctx) {
 				}
 				delay := rng.Intn(3)
 				c20call(c, n, m, false, delay, rng.Uint64())
+				if m >= 1<<16 {
+					// call histories: the same huge limit again with another n that agrees in its low bits, the limit's low
+					// 16 bits alone, and the first call again (anything remembered between calls must be keyed completely)
+					for _, nm := range [][2]int{{n + 64, m}, {n % 64, m}, {n, m & 0xffff}, {n + 64*(1+rng.Intn(9)), m&0xffff | 1<<16}, {n, m}} {
+						if nm[1] >= 1 {
+							c20call(c, nm[0], nm[1], false, 0, rng.Uint64())
+						}
+					}
+				}
 				cl, nt := c20class(n, m, delay, false)
 				c.Eval(cl, nt)
 				if j == 0 {
